@@ -25,6 +25,8 @@ pub fn gen(family: &str, r: &mut Rng) -> Scenario {
         "fut" => fut(r),
         "mem" => mem(r),
         "scan" => scan(r),
+        "kf1" => kf1(r),
+        "kf12" => kf12(r),
         _ => ring(r, false),
     }
 }
@@ -406,4 +408,41 @@ fn scan(r: &mut Rng) -> Scenario {
         main.push(Op::SendRetry(0, 3));
     }
     Scenario { cfg, main, epilogue: Epilogue::Probe, family: "scan".into() }
+}
+
+/// known finding F1: add_stream by a handle that shares its stream with a consumer that keeps receiving
+/// while the producer wraps the ring (the new stream may be published at a stale position)
+fn kf1(r: &mut Rng) -> Scenario {
+    let cap = pick(r, &[1u64, 2, 2, 4]);
+    let n = crate::monitors::valid_wrap(cap);
+    let cfg = QCfg { bcast: true, fut: false, cap, wait: WaitCfg::Busy, fspins: None };
+    let mut main = Vec::new();
+    main.push(Op::Clone(1)); // slot 2: sibling handle B of stream 0
+    for _ in 0..n {
+        main.push(Op::TrySend(0));
+    }
+    // A adds a stream, B drains
+    main.push(Op::Spawn(vec![1], vec![Op::AddStream(0), Op::TryIter(0, 3 * n), Op::TryIter(1, 3 * n)]));
+    main.push(Op::Spawn(vec![2], vec![Op::TryIter(0, 3 * n), Op::TryIter(0, 3 * n)]));
+    for _ in 0..(2 * n + 2) {
+        main.push(Op::SendRetry(0, 3));
+    }
+    Scenario { cfg, main, epilogue: Epilogue::Probe, family: "kf1".into() }
+}
+
+/// known finding F12: sends in flight while the last stream of a move-out queue is removed
+fn kf12(r: &mut Rng) -> Scenario {
+    let cfg = QCfg { bcast: false, fut: false, cap: pick(r, &[1u64, 1, 2]), wait: WaitCfg::Busy, fspins: None };
+    let mut main = Vec::new();
+    main.push(Op::TrySend(0));
+    main.push(Op::Spawn(vec![1], vec![Op::TryRecv(0), Op::Drop(0)]));
+    if r.chance(1, 2) {
+        main.push(Op::Clone(0));
+        main.push(Op::Spawn(vec![2], vec![Op::SendRetry(0, 2), Op::SendRetry(0, 2), Op::Drop(0)]));
+    }
+    for _ in 0..4 {
+        main.push(Op::SendRetry(0, 2));
+    }
+    main.push(Op::Drop(0));
+    Scenario { cfg, main, epilogue: Epilogue::DropSendersFirst, family: "kf12".into() }
 }
